@@ -19,19 +19,23 @@ for log in ("/tmp/confirm1.log", "/tmp/confirm2.log", "/tmp/confirm3.log", "/tmp
         for ln in open(log):
             if ln.startswith("CONFIRM") and f"{prop}/" in ln.replace("seed_out", prop) and f"/{m}:" in ln:
                 pass
-subprocess.run(["git", "-C", "/repo", "checkout", "--", "."], check=True)
-r = subprocess.run(["git", "-C", "/repo", "apply", os.path.join(dst, "patch.diff")])
+# the patch is applied to a scratch copy of /repo's working tree (never to /repo itself); with VERIF_REPO set the check
+# writes its evidence / replay files under .work/scratch_* and leaves /verif/evidence alone
+scratch = "/tmp/seedrepo_%d" % os.getpid()
+subprocess.run(["rsync", "-a", "--exclude=/target", "--exclude=/.git", "--exclude=/npm", "/repo/", scratch + "/"], check=True)
+r = subprocess.run(["patch", "-p1", "-s", "-d", scratch, "-i", os.path.join(dst, "patch.diff")])
 out, rc = "", None
 if r.returncode == 0:
-    p = subprocess.run(["./check", prop, "quick"], cwd="/verif", capture_output=True, text=True)
+    env = dict(os.environ, VERIF_REPO=scratch, VERIF_KANI_WORK="/verif/.work/kani_mut")
+    p = subprocess.run(["./check", prop, "quick"], cwd="/verif", capture_output=True, text=True, env=env)
     out, rc = p.stdout, p.returncode
-subprocess.run(["git", "-C", "/repo", "checkout", "--", "."], check=True)
+shutil.rmtree(scratch, ignore_errors=True)
 lines = [l for l in out.splitlines() if l.startswith(("VIOLATION", "UNDECIDED", "OK"))]
 meta = {
     "breaks_property": prop,
     "needs_to_manifest": needs,
     "origin": "written by a fresh sub-agent given only the property text and a scratch worktree; confirmed with tools/confirm_seed.sh (demo passes on HEAD, fails with the patch; cargo test --workspace stays green with the patch)",
-    "ran": f"git -C /repo apply patch.diff; ./check {prop} quick; git -C /repo checkout -- .",
+    "ran": f"patch applied to a scratch copy of /repo; VERIF_REPO=<copy> ./check {prop} quick",
     "check_exit_code": rc,
     "check_output": [l[:300] for l in lines],
     "detected": rc == 1,
